@@ -647,11 +647,9 @@ func (f *frame) unop(ins *ssa.UnOp) Val {
 				return v
 			}
 		}
-		v := u.load(f.cur, p)
-		if v.T != nil && v.T.K == KSlice {
-			u.assume(u.wfSlice(v))
-		}
-		return u.define(f.key+"_"+ins.Name(), v)
+		v := u.define(f.key+"_"+ins.Name(), u.load(f.cur, p))
+		u.assumeLive(f.cur, v)
+		return v
 	case token.NOT:
 		return not(f.term(ins.X))
 	case token.SUB:
@@ -672,6 +670,20 @@ func (f *frame) unop(ins *ssa.UnOp) Val {
 	}
 	f.bad("unsupported unary op %s on %s", ins.Op, ins.X.Type())
 	return nil
+}
+
+// assumeLive: a slice or pointer value that exists refers to an object below the allocation frontier.
+func (u *Unit) assumeLive(st *State, v Term) {
+	if v.T == nil {
+		return
+	}
+	switch v.T.K {
+	case KSlice:
+		u.assume(u.wfSlice(v))
+		u.assume(lt(sliceRef(v), u.nextRef(st)))
+	case KRef:
+		u.assume(and(le(Term{"0", sInt}, v), lt(v, u.nextRef(st))))
+	}
 }
 
 func (u *Unit) wfSlice(s Term) Term {
